@@ -1023,6 +1023,124 @@ func lcSetTag(t, tag string) string {
 	return strings.Join(f, ",")
 }
 
+// plain header: valid window, min fee, fresh nonce, no group
+func (g *lcGen) ph(kind string, snd uint64) string {
+	g.nonce++
+	return fmt.Sprintf("%s,%d,%d,%d,%d,%d,0", kind, snd, g.minFee, g.round, g.round+10, g.nonce)
+}
+
+// funded returns up to n distinct ordinary accounts holding at least `need` microalgos
+func (g *lcGen) funded(v *lcView, n int, need uint64) []uint64 {
+	var out []uint64
+	start := g.r.Intn(6)
+	for k := 0; k < 6 && len(out) < n; k++ {
+		id := uint64(1 + (start+k)%6)
+		if g.balWP(v.acct[id]) >= need && v.acct[id].Status != basics.NotParticipating {
+			out = append(out, id)
+		}
+	}
+	return out
+}
+
+// scriptAssets: a directed life cycle of one asset that meets every holder rule: create, opt-ins, distribution, freeze,
+// transfer out of / into a frozen holding, clawback, destroy while held, close-out to creator / to another holder while
+// frozen, destroy.  Returned as single-transaction groups (some merged into one group).
+func (g *lcGen) scriptAssets(v *lcView) []string {
+	u := g.funded(v, 3, 3000000)
+	if len(u) < 3 {
+		return nil
+	}
+	a, b, c := u[0], u[1], u[2]
+	aid := g.h.ev.VerifLcoreCounter() + 1
+	total := g.pick(100, 1000, ^uint64(0))
+	df := g.r.Chance(30)
+	frz, clw := a, a
+	if g.r.Chance(25) {
+		frz = c
+	}
+	if g.r.Chance(25) {
+		clw = b
+	}
+	x := g.pick(1, 10, total/2, total)
+	var out []string
+	one := func(t string) { out = append(out, "group "+t) }
+	one(g.ph("acfg", a) + fmt.Sprintf(",0,%d,0,%s,%d,0,%d,%d", total, lcB(df), a, frz, clw))
+	optb := g.ph("axfer", b) + fmt.Sprintf(",%d,0,0,%d,0", aid, b)
+	optc := g.ph("axfer", c) + fmt.Sprintf(",%d,0,0,%d,0", aid, c)
+	if g.r.Chance(40) {
+		out = append(out, "group "+lcSetTag(optb, "1")+";"+lcSetTag(optc, "1"))
+	} else {
+		one(optb)
+		one(optc)
+	}
+	if df { // unfreeze b (and sometimes c) so that the distribution can happen; otherwise it is rejected
+		if g.r.Chance(80) {
+			one(g.ph("afrz", frz) + fmt.Sprintf(",%d,%d,0", aid, b))
+		}
+		if g.r.Chance(60) {
+			one(g.ph("afrz", frz) + fmt.Sprintf(",%d,%d,0", aid, c))
+		}
+	}
+	one(g.ph("axfer", a) + fmt.Sprintf(",%d,%d,0,%d,0", aid, x, b))
+	one(g.ph("afrz", frz) + fmt.Sprintf(",%d,%d,1", aid, b))
+	one(g.ph("axfer", b) + fmt.Sprintf(",%d,%d,0,%d,0", aid, g.pick(0, 1, x), c))            // out of a frozen holding
+	one(g.ph("axfer", a) + fmt.Sprintf(",%d,%d,0,%d,0", aid, g.pick(0, 1), b))               // into a frozen holding
+	one(g.ph("axfer", clw) + fmt.Sprintf(",%d,%d,%d,%d,0", aid, g.pick(1, x/2, x), b, c))    // clawback from frozen b
+	one(g.ph("axfer", g.pick(a, b, c)) + fmt.Sprintf(",%d,1,%d,%d,0", aid, b, c))            // clawback by somebody (maybe not the clawback address)
+	one(g.ph("acfg", a) + fmt.Sprintf(",%d,0,0,0,0,0,0,0", aid))                              // destroy while others hold
+	if g.r.Chance(50) {
+		one(g.ph("axfer", b) + fmt.Sprintf(",%d,0,0,0,%d", aid, c)) // frozen b closes to a non-creator
+	}
+	one(g.ph("axfer", b) + fmt.Sprintf(",%d,0,0,0,%d", aid, a)) // frozen b closes to the creator
+	if g.r.Chance(30) {
+		one(g.ph("axfer", c) + fmt.Sprintf(",%d,0,0,0,%d", aid, c)) // close to self
+	}
+	if g.r.Chance(70) {
+		one(g.ph("axfer", c) + fmt.Sprintf(",%d,0,0,0,%d", aid, a))
+	}
+	one(g.ph("acfg", g.pick(a, b)) + fmt.Sprintf(",%d,0,0,0,0,0,0,0", aid)) // destroy (by the manager or not)
+	if g.r.Chance(50) {
+		one(g.ph("axfer", c) + fmt.Sprintf(",%d,0,0,0,%d", aid, g.pick(a, b))) // close out of a destroyed asset
+	}
+	return out
+}
+
+// scriptMinBal: an account is brought to exactly its min balance, then its requirement is raised / lowered
+func (g *lcGen) scriptMinBal(v *lcView) []string {
+	u := g.funded(v, 1, 5000000)
+	if len(u) < 1 {
+		return nil
+	}
+	a := u[0]
+	z := uint64(0)
+	for id := uint64(1); id <= 6; id++ {
+		if v.acct[id].MicroAlgos.Raw == 0 && v.acct[id].Status == basics.Offline {
+			z = id
+		}
+	}
+	if z == 0 || z == a {
+		z = g.pick(0, lcSP) // the zero address (checked) or the exempt state-proof sender
+	}
+	aid := g.h.ev.VerifLcoreCounter() + 1
+	mb, fee := g.minBal, g.minFee
+	var out []string
+	one := func(t string) { out = append(out, "group "+t) }
+	one(g.ph("acfg", a) + fmt.Sprintf(",0,1000,0,0,%d,0,0,0", a))
+	one(g.ph("pay", a) + fmt.Sprintf(",%d,%d,0", z, mb-1)) // receiver below min balance
+	one(g.ph("pay", a) + fmt.Sprintf(",%d,%d,0", z, mb))   // exactly at it
+	if z >= 1 && z <= 6 {
+		one(g.ph("axfer", z) + fmt.Sprintf(",%d,0,0,%d,0", aid, z))                  // cannot even pay the fee
+		one(g.ph("pay", a) + fmt.Sprintf(",%d,%d,0", z, mb+fee-1))                   // one short for an opt-in
+		one(g.ph("axfer", z) + fmt.Sprintf(",%d,0,0,%d,0", aid, z))                  // rejected: below the raised requirement
+		one(g.ph("pay", a) + fmt.Sprintf(",%d,%d,0", z, 1+fee*uint64(2+g.r.Intn(3)))) // now enough
+		one(g.ph("axfer", z) + fmt.Sprintf(",%d,0,0,%d,0", aid, z))                  // accepted: exactly at 2·mb (+ spare fees)
+		one(g.ph("pay", z) + fmt.Sprintf(",%d,1,%d", a, a))                          // close with an asset outstanding
+		one(g.ph("axfer", z) + fmt.Sprintf(",%d,0,0,0,%d", aid, a))                  // close the holding out
+		one(g.ph("pay", z) + fmt.Sprintf(",%d,0,%d", a, a))                          // close the account: zero record
+	}
+	return out
+}
+
 func (g *lcGen) genesis() string {
 	var sb strings.Builder
 	sb.WriteString("reset proto=")
@@ -1135,9 +1253,20 @@ func TestVerifLcore(t *testing.T) {
 			g.round, g.minFee, g.minBal, g.level, g.unit = uint64(h.ev.Round()), p.MinFee().Raw, p.MinBalance, h.ev.VerifLcoreRewardsLevel(), p.RewardUnit
 			g.okTxns = nil
 			ngroups := 6 + g.r.Intn(18)
-			for i := 0; i < ngroups; i++ {
+			var script []string
+			if (profile == "c22" && g.r.Chance(60)) || (profile != "c22" && g.r.Chance(15)) {
+				script = g.scriptAssets(h.view())
+			} else if (profile == "c21" && g.r.Chance(60)) || (profile != "c21" && g.r.Chance(10)) {
+				script = g.scriptMinBal(h.view())
+			}
+			for i := 0; i < ngroups+len(script); i++ {
 				v := h.view()
-				op := g.genGroup(v)
+				var op string
+				if i < len(script) {
+					op = script[i]
+				} else {
+					op = g.genGroup(v)
+				}
 				res := h.exec(op)
 				out.Emit(op, res)
 				if strings.HasPrefix(res, "ok ") && len(op) > 6 {
